@@ -40,6 +40,7 @@ type Solver struct {
 	marker  int
 	dead    bool
 	interrupted bool
+	writeFailed bool
 	Interrupts  int
 	logw    io.Writer
 }
@@ -86,6 +87,7 @@ func (s *Solver) start() {
 	s.defined = map[int]bool{}
 	s.stack = nil
 	s.dead = false
+	s.writeFailed = false
 	s.send("(set-option :global-declarations true)")
 	s.send("(set-option :produce-models true)")
 	s.send("(set-logic ALL)")
@@ -110,7 +112,10 @@ func (s *Solver) send(line string) {
 		fmt.Fprintln(s.logw, line)
 	}
 	if _, err := io.WriteString(s.in, line+"\n"); err != nil {
-		s.Errors = append(s.Errors, "write: "+err.Error())
+		if !s.interrupted && !s.writeFailed {
+			s.Errors = append(s.Errors, "write: "+err.Error())
+		}
+		s.writeFailed = true
 	}
 }
 
@@ -212,6 +217,11 @@ func (s *Solver) Check(pc []*Term, extra *Term, vars []*Term) (Result, map[strin
 	defer func() { s.Time += time.Since(t0); s.Queries++ }()
 	if s.dead {
 		s.start()
+	}
+	if s.interrupted {
+		// killed after it had already answered the previous query: start afresh
+		s.interrupted = false
+		s.restart()
 	}
 	s.sync(pc)
 	var refs []string
